@@ -90,6 +90,7 @@ PROPS = {
     "C06": dict(
         title="reim/cplx FFT and iFFT equal the mathematical transform, in documented order",
         module="SpqProofs.Properties.C06",
+        extra_modules=["SpqProofs.Properties.Numerics"],
         streams=dict(quick=[("ff_fft", "plain"), ("ff_cfft", "plain"), ("ff_crafted", "plain"), ("ff_ccrafted", "plain"), ("ff_tables", "plain")],
                      thorough=[("ff_fft", "plain"), ("ff_cfft", "plain"), ("ff_crafted", "plain"), ("ff_ccrafted", "plain"), ("ff_tables", "plain")]),
         proved="exact arithmetic, every m = 2^k (all k), reim and cplx layouts, reference and FMA/assembly schedules alike (the same network code as the bit-exact model, instantiated with a commutative ring with I^2=-1, zeta^m=I and the exact table = transcription of the fill_* functions): forward output j = evaluation of the input polynomial at zeta^(1+4*bitrev_k(j)); the inverse applied to exact evaluations returns m times the coefficients; ifft o fft = m.id for any pairing of implementations",
@@ -226,6 +227,7 @@ PROPS = {
         level_text="Lean 4 theorems: layout maps cell by cell with frame for every m/blk/rows/stride, exact-arithmetic equality of every kernel (ref, avx2/fma, sse, avx512 orders) with the complex definition for every length, standard-model error bounds for the accumulating products; bit-exact correspondence on all variants",
         design_ref="DESIGN.md §5 C17",
         module="SpqProofs.Properties.C17",
+        extra_modules=["SpqProofs.Properties.Numerics"],
         variants={"plain": None},
         streams=dict(quick=[("r4_layout", "plain"), ("r4_arith", "plain")],
                      thorough=[("r4_layout", "plain"), ("r4_arith", "plain")]),
